@@ -172,6 +172,21 @@ pub fn resp_check(kind: Kind, mode: Mode, model: &Value, info: RInfo, obs: &mut 
             if out.is_empty() || out[0] != 0 {
                 return Err(Fail::new(format!("C03:{}:status", kind.name()), "response did not serialise", case(&out)));
             }
+            // what reaches the wire after the value travelled through the dispatcher as a
+            // handler's answer (to a request that is related to it) must be canonical as well
+            if let Ok(Ok(r)) = crate::echo::through_dispatch(&resp, n_entries % 2) {
+                let via = serialize_full(&r);
+                obs.label("via-dispatch");
+                if via.len() > 1 {
+                    refcbor::check_canonical(&via[1..]).map_err(|m| {
+                        Fail::new(
+                            format!("{}:via-dispatch", sig_of(prop, kind.name(), &m)),
+                            format!("{} response body after call_ctap2 / Rpc::call is not canonical CBOR: {}", kind.name(), m),
+                            case(&via),
+                        )
+                    })?;
+                }
+            }
             if out.len() > 1 {
                 refcbor::check_canonical(&out[1..]).map_err(|m| {
                     Fail::new(
